@@ -49,6 +49,28 @@ def run(ctx):
     term = [c for c in calls_in(rs.node) if last_attr(c) == 'terminate' and receiver(c) == 'self']
     ctx.check('R1', 'restart() terminates an incarnation that did not finish in time', len(term) == 1, 'PersistentWorker.restart', 'restart-without-terminate',
               'restart() does not try to terminate a worker that is still running', where=loc(rs, rs.node))
+    if len(term) == 1:
+        # what stops a worker that did not end by itself is the caller's own terminate(*args, **kwargs): restart's `timeout` is the time to wait for the natural
+        # end and says nothing about the grace period of the terminate request (terminate(timeout=0) gives the child no time to react at all)
+        t = term[0]
+        va = rs.node.args.vararg.arg if rs.node.args.vararg else None
+        kw = rs.node.args.kwarg.arg if rs.node.args.kwarg else None
+        fw = va is not None and kw is not None and len(t.args) == 1 and isinstance(t.args[0], ast.Starred) and is_name(t.args[0].value, va) \
+            and len(t.keywords) == 1 and t.keywords[0].arg is None and is_name(t.keywords[0].value, kw)
+        touched = []
+        for n in walk_local(rs.node):
+            if isinstance(n, ast.Call) and isinstance(n.func, ast.Attribute) and is_name(n.func.value, kw) and n.func.attr in ('setdefault', 'update', 'pop', 'popitem', 'clear', '__setitem__'):
+                touched.append(n)
+            if isinstance(n, (ast.Assign, ast.AugAssign, ast.Delete)):
+                for tg in (n.targets if not isinstance(n, ast.AugAssign) else [n.target]):
+                    base = tg.value if isinstance(tg, ast.Subscript) else tg
+                    if is_name(base, kw) or is_name(base, va):
+                        touched.append(n)
+        ctx.check('R1', 'restart() hands the caller\'s own *args/**kwargs to terminate(), untouched', fw and not touched, 'PersistentWorker.restart',
+                  'terminate-arguments-altered' + (':' + norm(touched[0])[:50] if touched else ''),
+                  'restart() changes what it passes to terminate() (e.g. it forwards its own `timeout`, the time to wait for the natural end, as the grace period of the terminate request): '
+                  'with restart(timeout=0) the old incarnation gets no time to react, is found alive and restart() raises "Could not stop a worker!" for a worker that stops a moment later',
+                  where=loc(rs, touched[0]) if touched else loc(rs, t))
     rz = [st for st in walk_local(rs.node) if isinstance(st, ast.If) and norm(st.test) == 'self.is_alive()' and any(isinstance(x, ast.Raise) for x in st.body)]
     ctx.check('R1', 'restart() raises if the old incarnation cannot be stopped', bool(rz), 'PersistentWorker.restart', 'restart-does-not-raise',
               'restart() does not raise when the old incarnation survives terminate()', where=loc(rs, rs.node))
